@@ -1039,7 +1039,7 @@ class G:
     # (DESIGN §12.8, "instances" paragraph); set to True to see them:
     #  * a type's default written as a bare name (其量设为基) is stored BY REFERENCE: a later in-place change of that name
     #    (以基（自增：5）) changes the type's default, so objects created afterwards do not start from the declared default;
-    INST_MUTATE_NAMES_USED_AS_DEFAULTS = False
+    INST_MUTATE_NAMES_USED_AS_DEFAULTS = True
     #  * a type defined inside a method body: the second call of that method fails (the type's name is exported twice), and a
     #    method of such an object cannot be called where the type's name is not visible (error 42).
     INST_TYPES_DEFINED_INSIDE_METHODS = False
